@@ -41,6 +41,19 @@ impl Candidate {
     }
 }
 
+#[cfg(feature = "verif")]
+impl Candidate {
+    /// (nth, filter, estimated size, raw length) - the fields `cmp_key` looks at
+    pub(crate) fn verif_key(&self) -> (usize, RowFilter, usize, usize) {
+        (
+            self.nth,
+            self.filter,
+            self.estimated_output_size,
+            self.image.data.len(),
+        )
+    }
+}
+
 /// Collect image versions and pick one that compresses best
 pub(crate) struct Evaluator {
     deadline: Arc<Deadline>,
@@ -51,6 +64,8 @@ pub(crate) struct Evaluator {
     nth: AtomicUsize,
     executed: Arc<AtomicUsize>,
     best_candidate_size: Arc<AtomicMin>,
+    #[cfg(feature = "verif")]
+    verif_id: u64,
     /// images are sent to the caller thread for evaluation
     #[cfg(feature = "parallel")]
     eval_channel: (Sender<Candidate>, Receiver<Candidate>),
@@ -78,6 +93,8 @@ impl Evaluator {
             nth: AtomicUsize::new(0),
             executed: Arc::new(AtomicUsize::new(0)),
             best_candidate_size: Arc::new(AtomicMin::new(None)),
+            #[cfg(feature = "verif")]
+            verif_id: crate::verif::next_eval_id(),
             #[cfg(feature = "parallel")]
             eval_channel,
             #[cfg(not(feature = "parallel"))]
@@ -93,21 +110,38 @@ impl Evaluator {
         // Disconnect the sender, breaking the loop in the thread
         drop(eval_send);
         let nth = self.nth.load(SeqCst);
+        #[cfg(feature = "verif")]
+        let verif_id = self.verif_id;
+        #[cfg(feature = "verif")]
+        crate::verif::emit(|| crate::verif::Event::CollectStart {
+            eval: verif_id,
+            submitted: nth,
+        });
         // Yield to ensure all evaluations are executed
         // This can prevent deadlocks when run within an existing rayon thread pool
         while self.executed.load(Relaxed) < nth {
+            #[cfg(feature = "verif")]
+            crate::verif::emit(|| crate::verif::Event::Yield { eval: verif_id });
             rayon::yield_local();
         }
+        #[cfg(feature = "verif")]
+        let eval_recv = crate::verif::TapIter::new(eval_recv.into_iter(), verif_id);
         eval_recv.into_iter().min_by_key(Candidate::cmp_key)
     }
 
     #[cfg(not(feature = "parallel"))]
     pub fn get_best_candidate(self) -> Option<Candidate> {
+        #[cfg(feature = "verif")]
+        crate::verif::emit(|| crate::verif::Event::CollectEnd {
+            eval: self.verif_id,
+        });
         self.eval_best_candidate.into_inner()
     }
 
     /// Set best size, if known in advance
     pub fn set_best_size(&self, size: usize) {
+        #[cfg(feature = "verif")]
+        crate::verif::set_ctx(self.verif_id, usize::MAX, RowFilter::None);
         self.best_candidate_size.set_min(size);
     }
 
@@ -120,6 +154,16 @@ impl Evaluator {
     /// Check if the image is smaller than others, with a description for verbose mode
     pub fn try_image_with_description(&self, image: Arc<PngImage>, description: &str) {
         let nth = self.nth.fetch_add(1, SeqCst);
+        #[cfg(feature = "verif")]
+        let verif_id = self.verif_id;
+        #[cfg(feature = "verif")]
+        crate::verif::emit(|| crate::verif::Event::Submit {
+            eval: verif_id,
+            nth,
+            image: image.clone(),
+            final_round: self.final_round,
+            optimize_alpha: self.optimize_alpha,
+        });
         // These clones are only cheap refcounts
         let deadline = self.deadline.clone();
         let filters = self.filters.clone();
@@ -135,6 +179,11 @@ impl Evaluator {
         let eval_send = self.eval_channel.0.clone();
         rayon::spawn(move || {
             executed.fetch_add(1, Relaxed);
+            #[cfg(feature = "verif")]
+            crate::verif::emit(|| crate::verif::Event::JobStart {
+                eval: verif_id,
+                nth,
+            });
             let filters_iter = filters.par_iter().with_max_len(1);
 
             // Updating of best result inside the parallel loop would require locks,
@@ -142,11 +191,35 @@ impl Evaluator {
             // Instead, only update (atomic) best size in real time,
             // and the best result later without need for locks.
             filters_iter.for_each(|&filter| {
+                #[cfg(feature = "verif")]
+                crate::verif::emit(|| crate::verif::Event::TrialStart {
+                    eval: verif_id,
+                    nth,
+                    filter,
+                });
                 if deadline.passed() {
+                    #[cfg(feature = "verif")]
+                    crate::verif::emit(|| crate::verif::Event::Skipped {
+                        eval: verif_id,
+                        nth,
+                        filter,
+                    });
                     return;
                 }
+                #[cfg(feature = "verif")]
+                crate::verif::set_ctx(verif_id, nth, filter);
                 let filtered = image.filter_image(filter, optimize_alpha);
                 let idat_data = deflater.deflate(&filtered, best_candidate_size.get());
+                #[cfg(feature = "verif")]
+                crate::verif::emit(|| crate::verif::Event::Finish {
+                    eval: verif_id,
+                    nth,
+                    filter,
+                    idat_len: idat_data.as_ref().ok().map(|d| d.len()),
+                    key_size: image.key_chunks_size(),
+                    raw_len: image.data.len(),
+                    filtered: filtered.clone(),
+                });
                 if let Ok(idat_data) = idat_data {
                     let estimated_output_size = image.estimated_output_size(&idat_data);
                     // For the final round we need the IDAT data, otherwise the filtered data
